@@ -160,11 +160,33 @@ theorem phase_angle_eq {r d R : ℝ} (hr : 0 < r) (hd : 0 < d) (h1 : |r - d| ≤
   obtain ⟨hc1, hc2⟩ := phase_cos_bounds hr hd h1 h2
   have hden : (2 : ℝ) * r * d ≠ 0 := by positivity
   have e2 : (2.0 : ℝ) = 2 := by norm_num
+  have e1 : (1.0 : ℝ) = 1 := by norm_num
   have hsmall : |Real.arccos ((r * r + d * d - R * R) / (2 * r * d))| < 2 * π := by
     rw [abs_of_nonneg (Real.arccos_nonneg _)]
     linarith [Real.arccos_le_pi ((r * r + d * d - R * R) / (2 * r * d)), Real.pi_pos]
+  -- the clamp does not fire: |cosine| ≤ 1
+  have hnc : ¬ (1 < |(r * r + d * d - R * R) / (2 * r * d)|) := not_lt.mpr (abs_le.mpr ⟨hc1, hc2⟩)
   unfold phase_angle
-  simp only [fdiv_ok hden, e2, facos_ok hc1 hc2, angle_of_rad_small hsmall]
+  simp only [e2, e1, fdiv_ok hden, plt, pabs, hnc, decide_false, Bool.false_and, Bool.false_eq_true, if_false,
+    facos_ok hc1 hc2, angle_of_rad_small hsmall]
+
+/-- The clamp of a27247f: a cosine that overshoots ±1 by less than 1e-12 is taken as ±1, so the phase angle is
+    0° (cosine > 1) or 180° (cosine < -1). -/
+theorem phase_angle_clamped {r d R : ℝ} (hden : 2 * r * d ≠ 0)
+    (h1 : 1 < |(r * r + d * d - R * R) / (2 * r * d)|) (h2 : |(r * r + d * d - R * R) / (2 * r * d)| < 1 + 1e-12) :
+    phase_angle r d R = .ok (if 0 < (r * r + d * d - R * R) / (2 * r * d) then 0 else 180) := by
+  have e2 : (2.0 : ℝ) = 2 := by norm_num
+  have e1 : (1.0 : ℝ) = 1 := by norm_num
+  have e0 : (0.0 : ℝ) = 0 := by norm_num
+  have hpi := Real.pi_pos
+  unfold phase_angle
+  simp only [e2, e1, e0, fdiv_ok hden, plt, pabs, h1, h2, decide_true, Bool.and_self, if_true, decide_eq_true_eq]
+  by_cases hc : 0 < (r * r + d * d - R * R) / (2 * r * d)
+  · simp only [hc, if_true, facos_ok (show (-1:ℝ) ≤ 1 by norm_num) (le_refl (1:ℝ)), Real.arccos_one]
+    rw [angle_of_rad_small (show |(0:ℝ)| < 2 * π by simp; positivity)]; simp
+  · simp only [hc, if_false, facos_ok (le_refl (-1:ℝ)) (show (-1:ℝ) ≤ 1 by norm_num), Real.arccos_neg_one]
+    rw [angle_of_rad_small (show |π| < 2 * π by rw [abs_of_pos hpi]; linarith)]
+    congr 1; field_simp
 
 theorem illuminated_fraction_eq {r d R : ℝ} (hr : 0 < r) (hd : 0 < d) :
     illuminated_fraction r d R = .ok (((r + d) * (r + d) - R * R) / (4 * r * d)) := by
